@@ -638,7 +638,12 @@ def tile(x, repetitions, /):
             x = expand_dims(x, axis=0)
     out = x
     for i, nrep in enumerate(repetitions):
-        if nrep > 1:
+        if nrep < 0:
+            raise ValueError("repetitions must not be negative")
+        if nrep == 0:
+            # no copies along this axis: the result is empty along it
+            out = out[(slice(None),) * i + (slice(0, 0),)]
+        elif nrep > 1:
             out = concat([out] * nrep, axis=i)
     return out
 
